@@ -175,9 +175,10 @@ class Ellipsis(Expression):
         if isinstance(self.inner, Axis) and self.inner.name == Ellipsis.anonymous_variable_name:
             return "..."
         n = str(self.inner)
-        if isinstance(self.inner, List) and len(self.inner.children) != 1:
-            # A list of several expressions under an ellipsis only arises inside brackets ("[[a b]...]": the parser drops the
-            # redundant inner brackets). It is printed with these brackets, such that the printed expression parses to itself.
+        if isinstance(self.inner, Ellipsis) or (isinstance(self.inner, List) and len(self.inner.children) != 1):
+            # A list of several expressions (or a single ellipsis: "a......" is not valid) under an ellipsis only arises inside
+            # brackets ("[[a b]...]", "[[a...]...]": the parser drops the redundant inner brackets). It is printed with these
+            # brackets, such that the printed expression parses to itself.
             parent = self.parent
             while parent is not None and not isinstance(parent, Brackets):
                 parent = parent.parent
